@@ -269,15 +269,18 @@ Definition c13_outside_urls : list string := (
   "type.googleapis.com/google.crypto.tink.CompositeMlDsaPublicKey" ::
   "type.googleapis.com/google.crypto.tink.CompositeMlDsaPrivateKey" :: nil)%list.
 
-(* ---- type URLs that have a registered key parser (RegisterKeyParser) which
-   this model does not transcribe; keysets containing them are decided by the
-   direct check only: the PRF-based deriver key nests a key TEMPLATE that goes
-   through protoserialization.ParseParameters, i.e. the parameters parsers of
-   every key type, none of which this model transcribes.  (The composite ML-DSA
-   keys, which nest key data, are transcribed.  ML-DSA and JWT ML-DSA private keys are
-   transcribed: the public key of a seed is asked of the stdlib record, field
-   mldsa_pub, answered at run time by the library's own ML-DSA key generation -
-   the Go standard library has none - which is trusted for that one function;
-   C10 is the property about it.) ---- *)
+(* ---- the one type URL with a registered key parser (RegisterKeyParser) that
+   model/Untrusted.v does not transcribe (its parse_key answers it with the
+   fallback key): the PRF-based deriver key, which nests a key TEMPLATE that
+   goes through protoserialization.ParseParameters, i.e. the parameters parsers
+   of every key type.  It IS transcribed, with all 30 parameters parsers, in
+   model/UntrustedParams.v (parse_deriver, parse_params), which C14 runs; this
+   list is kept because model/Secrets.v (C13) is stated over model/Untrusted.v
+   and decides keysets containing the type by its direct check only.  (The
+   composite ML-DSA keys, which nest key data, are transcribed.  ML-DSA and JWT
+   ML-DSA private keys are transcribed: the public key of a seed is asked of the
+   stdlib record, field mldsa_pub, answered at run time by the library's own
+   ML-DSA key generation - the Go standard library has none - which is trusted
+   for that one function; C10 is the property about it.) ---- *)
 Definition unmodelled_urls : list string := (
   "type.googleapis.com/google.crypto.tink.PrfBasedDeriverKey" :: nil)%list.
